@@ -80,6 +80,9 @@ theorem dropGuard_tasks (m : M) (ob) : (dropGuard m ob).tasks = m.tasks := by
 theorem dropGuard_polls (m : M) (ob) : (dropGuard m ob).polls = m.polls := by
   unfold dropGuard; repeat' split
   all_goals rfl
+theorem dropGuard_resOwner (m : M) (ob) : (dropGuard m ob).resOwner = m.resOwner := by
+  unfold dropGuard; repeat' split
+  all_goals rfl
 
 theorem dropGuard_boundaries (m : M) (ob : Option Nat) (b : Nat) :
     (dropGuard m ob).boundaries[b]? = (m.boundaries[b]?).map (decIf m ob b) := by
@@ -313,8 +316,28 @@ structure Struct (m : M) : Prop where
   bnd_parent : ∀ (b : Nat) (bd : Boundary) (p : Nat), m.boundaries[b]? = some bd → bd.parent = some p →
     p < b ∧ ∃ pd, m.boundaries[p]? = some pd ∧ Anc m pd.innerScope bd.counterScope
   task_scope : ∀ (t : Nat) (tk : Task), m.tasks[t]? = some tk → tk.scope < m.scopes.length
+  /-- the boundary of a task exists. (The guard of a READ — `Item.use` — lives in the scope that owns
+  the resource, which need not be below the boundary: see `Local` for the tasks spawned in place.) -/
   task_bnd : ∀ (t : Nat) (tk : Task) (b : Nat), m.tasks[t]? = some tk → tk.boundary = some b →
+    ∃ bd, m.boundaries[b]? = some bd
+  /-- the root scope exists -/
+  root : 0 < m.scopes.length
+  /-- the recorded owner of a resource is a scope that exists -/
+  res_owner : ∀ (n s : Nat), (n, s) ∈ m.resOwner → s < m.scopes.length
+
+/-- the tasks are spawned in place: the inner scope of a task's boundary is the task's scope or an
+ancestor of it. True of the tasks created by `Item.task` / `Item.resource`, NOT of the guard of a read
+(`Item.use`), which is held by the resource and lives in the scope that owns the resource. -/
+def Local (m : M) : Prop :=
+  ∀ (t : Nat) (tk : Task) (b : Nat), m.tasks[t]? = some tk → tk.boundary = some b →
     ∃ bd, m.boundaries[b]? = some bd ∧ Anc m bd.innerScope tk.scope
+
+/-- the scope that owns a resource exists -/
+theorem Struct.ownerOf_lt {m : M} (h : Struct m) (n : Nat) : m.ownerOf n < m.scopes.length := by
+  unfold M.ownerOf
+  cases hf : m.resOwner.find? (·.1 == n) with
+  | none => exact h.root
+  | some p => exact h.res_owner p.1 p.2 (List.mem_of_find?_eq_some hf)
 
 def bstat (bd : Boundary) : Option Nat × Nat × Nat := (bd.parent, bd.counterScope, bd.innerScope)
 def tstat (tk : Task) : Nat × Option Nat := (tk.scope, tk.boundary)
@@ -325,13 +348,14 @@ structure SameSkel (m m' : M) : Prop where
   par : ∀ (s : Nat), parentOf m' s = parentOf m s
   bnd : ∀ (b : Nat), (m'.boundaries[b]?).map bstat = (m.boundaries[b]?).map bstat
   task : ∀ (t : Nat), (m'.tasks[t]?).map tstat = (m.tasks[t]?).map tstat
+  res : m'.resOwner = m.resOwner
 
-theorem SameSkel.refl (m : M) : SameSkel m m := ⟨rfl, fun _ => rfl, fun _ => rfl, fun _ => rfl⟩
+theorem SameSkel.refl (m : M) : SameSkel m m := ⟨rfl, fun _ => rfl, fun _ => rfl, fun _ => rfl, rfl⟩
 theorem SameSkel.trans {a b c : M} (h1 : SameSkel a b) (h2 : SameSkel b c) : SameSkel a c :=
   ⟨h2.len.trans h1.len, fun s => (h2.par s).trans (h1.par s), fun s => (h2.bnd s).trans (h1.bnd s),
-   fun s => (h2.task s).trans (h1.task s)⟩
+   fun s => (h2.task s).trans (h1.task s), h2.res.trans h1.res⟩
 theorem SameSkel.symm {a b : M} (h : SameSkel a b) : SameSkel b a :=
-  ⟨h.len.symm, fun s => (h.par s).symm, fun s => (h.bnd s).symm, fun s => (h.task s).symm⟩
+  ⟨h.len.symm, fun s => (h.par s).symm, fun s => (h.bnd s).symm, fun s => (h.task s).symm, h.res.symm⟩
 
 theorem map_eq_some_of {α β} {f : α → β} {o o' : Option α} {x' : α} (h : o'.map f = o.map f) (h' : o' = some x') :
     ∃ x, o = some x ∧ f x = f x' := by
@@ -372,10 +396,19 @@ theorem Struct.of_sameSkel {m m' : M} (hs : Struct m) (h : SameSkel m m') : Stru
     obtain ⟨tk, h1, h2, _⟩ := h.task_of ht
     rw [h.len, ← h2]; exact hs.task_scope t tk h1
   task_bnd t tk' b ht hb := by
-    obtain ⟨tk, h1, h2, h3⟩ := h.task_of ht
-    obtain ⟨bd, hbd, hanc⟩ := hs.task_bnd t tk b h1 (h3.trans hb)
-    obtain ⟨bd', hbd', _, _, h6⟩ := h.symm.bnd_of hbd
-    exact ⟨bd', hbd', by rw [h6, ← h2]; exact hanc.of_sameSkel h⟩
+    obtain ⟨tk, h1, _, h3⟩ := h.task_of ht
+    obtain ⟨bd, hbd⟩ := hs.task_bnd t tk b h1 (h3.trans hb)
+    obtain ⟨bd', hbd', _⟩ := h.symm.bnd_of hbd
+    exact ⟨bd', hbd'⟩
+  root := by rw [h.len]; exact hs.root
+  res_owner n s hm := by rw [h.len]; rw [h.res] at hm; exact hs.res_owner n s hm
+
+theorem Local.of_sameSkel {m m' : M} (hl : Local m) (h : SameSkel m m') : Local m' := by
+  intro t tk' b ht hb
+  obtain ⟨tk, h1, h2, h3⟩ := h.task_of ht
+  obtain ⟨bd, hbd, hanc⟩ := hl t tk b h1 (h3.trans hb)
+  obtain ⟨bd', hbd', _, _, h6⟩ := h.symm.bnd_of hbd
+  exact ⟨bd', hbd', by rw [h6, ← h2]; exact hanc.of_sameSkel h⟩
 
 /-! #### every primitive keeps the static shape -/
 
@@ -394,6 +427,7 @@ theorem sameSkel_dropGuard (m : M) (ob : Option Nat) : SameSkel m (dropGuard m o
     rw [dropGuard_boundaries]
     cases m.boundaries[b]? <;> simp [bstat_decIf]
   task t := by rw [dropGuard_tasks]
+  res := dropGuard_resOwner m ob
 
 theorem sameSkel_modify (m : M) (i : Nat) (f : Task → Task) (hf : ∀ tk, m.tasks[i]? = some tk → tstat (f tk) = tstat tk) :
     SameSkel m { m with tasks := m.tasks.modify i f } where
@@ -409,8 +443,10 @@ theorem sameSkel_modify (m : M) (i : Nat) (f : Task → Task) (hf : ∀ tk, m.ta
       | none => rfl
       | some tk => simp [hf tk h']
     · cases m.tasks[t]? <;> simp [h]
+  res := rfl
 
-theorem sameSkel_polls (m : M) (q) : SameSkel m { m with polls := q } := ⟨rfl, fun _ => rfl, fun _ => rfl, fun _ => rfl⟩
+theorem sameSkel_polls (m : M) (q) : SameSkel m { m with polls := q } :=
+  ⟨rfl, fun _ => rfl, fun _ => rfl, fun _ => rfl, rfl⟩
 
 theorem tstat_adv (tk : Task) : tstat (adv tk) = tstat tk := by
   unfold adv; repeat' split
@@ -433,6 +469,7 @@ theorem sameSkel_dispose (m : M) (s : Nat) : SameSkel m (dispose m s) where
     cases m.tasks[t]? with
     | none => rfl
     | some tk => simp; split <;> rfl
+  res := rfl
 
 theorem sameSkel_dropOne (m : M) (i : Nat) (tk : Task) : SameSkel m (dropOne m i tk) :=
   (sameSkel_modify m i (fun x => { x with status := .dropped }) fun _ _ => rfl).trans (sameSkel_dropGuard _ _)
@@ -813,7 +850,7 @@ theorem scopeAlive_push {m m1 : M} {cur : Nat} (h : m1.scopes = m.scopes ++ [⟨
   · have : s - m.scopes.length = 0 := by omega
     rw [this]; rfl
 
-/-! #### the three constructors of the harness -/
+/-! #### the constructors of the harness (scope, boundary, task; resource and read below) -/
 
 def addScope (m : M) (cur : Nat) : M := { m with scopes := m.scopes ++ [⟨some cur, true⟩] }
 
@@ -857,7 +894,7 @@ theorem addScope_bi {m : M} {cur : Nat} {ctx : Option Nat} (h : BI m) (hv : Vali
   have hsc : (addScope m cur).scopes = m.scopes ++ [⟨some cur, true⟩] := rfl
   have hext : Ext m (addScope m cur) := ext_push hsc fun b bd hb => ⟨bd, hb, rfl⟩
   have hpar := parentOf_push hsc
-  refine ⟨⟨⟨?_, ?_, ?_, ?_, ?_⟩, scopeAlive_push hsc h.all_alive, h.all_pending, h.counter⟩, hext, ?_, ?_⟩
+  refine ⟨⟨⟨?_, ?_, ?_, ?_, ?_, ?_, ?_⟩, scopeAlive_push hsc h.all_alive, h.all_pending, h.counter⟩, hext, ?_, ?_⟩
   · intro s p hp
     rcases (hpar s p).1 hp with hp | ⟨rfl, rfl⟩
     · exact h.struct.parent_lt s p hp
@@ -871,8 +908,11 @@ theorem addScope_bi {m : M} {cur : Nat} {ctx : Option Nat} (h : BI m) (hv : Vali
     have := h.struct.task_scope t tk ht
     rw [hsc]; simp; omega
   · intro t tk b ht hb
-    obtain ⟨bd, hbd, hanc⟩ := h.struct.task_bnd t tk b ht hb
-    exact ⟨bd, hbd, hanc.ext hext⟩
+    exact h.struct.task_bnd t tk b ht hb
+  · rw [hsc]; simp
+  · intro n s hm
+    have := h.struct.res_owner n s hm
+    rw [hsc]; simp; omega
   · rw [hsc]; simp
   · intro b hb
     obtain ⟨bd, hbd, hanc⟩ := hv.2 b hb
@@ -899,7 +939,7 @@ theorem addBoundary_bi {m : M} {cur : Nat} {ctx : Option Nat} (h : BI m) (hv : V
         | succ k => simp [hk] at hb
   have hext : Ext m (addBoundary m cur ctx) := ext_push hsc fun b bd hb => ⟨bd, hold b bd hb, rfl⟩
   have hpar := parentOf_push hsc
-  refine ⟨⟨⟨?_, ?_, ?_, ?_, ?_⟩, scopeAlive_push hsc h.all_alive, h.all_pending, ?_⟩, hext, ?_, ?_⟩
+  refine ⟨⟨⟨?_, ?_, ?_, ?_, ?_, ?_, ?_⟩, scopeAlive_push hsc h.all_alive, h.all_pending, ?_⟩, hext, ?_, ?_⟩
   · intro s p hp
     rcases (hpar s p).1 hp with hp | ⟨rfl, rfl⟩
     · exact h.struct.parent_lt s p hp
@@ -918,8 +958,12 @@ theorem addBoundary_bi {m : M} {cur : Nat} {ctx : Option Nat} (h : BI m) (hv : V
     have := h.struct.task_scope t tk ht
     rw [hsc]; simp; omega
   · intro t tk b ht hb
-    obtain ⟨bd, hbd, hanc⟩ := h.struct.task_bnd t tk b ht hb
-    exact ⟨bd, hold b bd hbd, hanc.ext hext⟩
+    obtain ⟨bd, hbd⟩ := h.struct.task_bnd t tk b ht hb
+    exact ⟨bd, hold b bd hbd⟩
+  · rw [hsc]; simp
+  · intro n s hm
+    have := h.struct.res_owner n s hm
+    rw [hsc]; simp; omega
   · intro b bd hb
     rcases hnew b bd hb with hb | ⟨rfl, rfl⟩
     · exact h.counter b bd hb
@@ -931,7 +975,7 @@ theorem addBoundary_bi {m : M} {cur : Nat} {ctx : Option Nat} (h : BI m) (hv : V
       cases hb : tk.boundary with
       | none => simp [held, hb]
       | some b =>
-        obtain ⟨bd, hbd, _⟩ := h.struct.task_bnd t tk b ht hb
+        obtain ⟨bd, hbd⟩ := h.struct.task_bnd t tk b ht hb
         have := (List.getElem?_eq_some_iff.1 hbd).1
         have : b ≠ m.boundaries.length := by omega
         simp [held, hb, this]
@@ -941,7 +985,13 @@ theorem addBoundary_bi {m : M} {cur : Nat} {ctx : Option Nat} (h : BI m) (hv : V
     refine ⟨⟨ctx, cur, m.scopes.length, 0⟩, ?_, .refl⟩
     rw [hbs]; simp
 
-theorem addTask_bi {m : M} {cur : Nat} {ctx : Option Nat} (n : Nat) (h : BI m) (hv : Valid m cur ctx) :
+theorem addTask_resOwner (m cur ctx n) : (addTask m cur ctx n).resOwner = m.resOwner := by
+  unfold addTask; cases ctx <;> rfl
+
+/-- a task is added in scope `cur` (which exists) under boundary `ctx` (which exists); `cur` need not be
+below `ctx`: this covers the guard of a read, which lives in the scope that owns the resource -/
+theorem addTask_bi {m : M} {cur : Nat} {ctx : Option Nat} (n : Nat) (h : BI m) (hcur : cur < m.scopes.length)
+    (hctx : ∀ b, ctx = some b → ∃ bd, m.boundaries[b]? = some bd) :
     BI (addTask m cur ctx n) ∧ Ext m (addTask m cur ctx n) := by
   have hsc := addTask_scopes m cur ctx n
   have hts := addTask_tasks m cur ctx n
@@ -979,7 +1029,7 @@ theorem addTask_bi {m : M} {cur : Nat} {ctx : Option Nat} (n : Nat) (h : BI m) (
     · cases hk : t - m.tasks.length with
       | zero => simp [hk] at ht; exact .inr ht.symm
       | succ k => simp [hk] at ht
-  refine ⟨⟨⟨?_, ?_, ?_, ?_, ?_⟩, ?_, ?_, ?_⟩, hext⟩
+  refine ⟨⟨⟨?_, ?_, ?_, ?_, ?_, ?_, ?_⟩, ?_, ?_, ?_⟩, hext⟩
   · intro s p hp
     exact h.struct.parent_lt s p (by rw [← hpar]; exact hp)
   · intro b bd' hb
@@ -997,17 +1047,19 @@ theorem addTask_bi {m : M} {cur : Nat} {ctx : Option Nat} (n : Nat) (h : BI m) (
     rw [hsc]
     rcases htask t tk ht with ht | rfl
     · exact h.struct.task_scope t tk ht
-    · exact hv.1
+    · exact hcur
   · intro t tk b ht hb
     rcases htask t tk ht with ht | rfl
-    · obtain ⟨bd, hbd, hanc⟩ := h.struct.task_bnd t tk b ht hb
-      obtain ⟨bd', h3, h4⟩ := hold b bd hbd
-      simp [bstat] at h4
-      exact ⟨bd', h3, by rw [h4.2.2]; exact hanc.ext hext⟩
-    · obtain ⟨bd, hbd, hanc⟩ := hv.2 b hb
-      obtain ⟨bd', h3, h4⟩ := hold b bd hbd
-      simp [bstat] at h4
-      exact ⟨bd', h3, by rw [h4.2.2]; exact hanc.ext hext⟩
+    · obtain ⟨bd, hbd⟩ := h.struct.task_bnd t tk b ht hb
+      obtain ⟨bd', h3, _⟩ := hold b bd hbd
+      exact ⟨bd', h3⟩
+    · obtain ⟨bd, hbd⟩ := hctx b hb
+      obtain ⟨bd', h3, _⟩ := hold b bd hbd
+      exact ⟨bd', h3⟩
+  · rw [hsc]; exact h.struct.root
+  · intro k s hm
+    rw [addTask_resOwner] at hm
+    rw [hsc]; exact h.struct.res_owner k s hm
   · intro s hs
     rw [scopeAlive_congr hsc]; rw [hsc] at hs; exact h.all_alive s hs
   · intro t tk ht
@@ -1021,6 +1073,60 @@ theorem addTask_bi {m : M} {cur : Nat} {ctx : Option Nat} (n : Nat) (h : BI m) (
     rw [hts, List.countP_append]
     simp [held, List.countP_cons]
 
+/-- `create_isomorphic_resource`: the fetch is a task of the current scope; the owner is recorded -/
+def addResource (m : M) (cur : Nat) (ctx : Option Nat) (n : Nat) : M :=
+  { addTask m cur ctx 1 with resOwner := m.resOwner ++ [(n, cur)] }
+
+/-- recording owners that exist keeps the build invariant -/
+theorem setRes_bi {m : M} (r : List (Nat × Nat)) (h : BI m) (hr : ∀ (n s : Nat), (n, s) ∈ r → s < m.scopes.length) :
+    BI { m with resOwner := r } ∧ Ext m { m with resOwner := r } := by
+  have hext : Ext m { m with resOwner := r } := ⟨fun _ _ h => h, Nat.le_refl _, fun _ bd h => ⟨bd, h, rfl⟩⟩
+  refine ⟨⟨⟨h.struct.parent_lt, h.struct.bnd_inner, ?_, h.struct.task_scope, h.struct.task_bnd, h.struct.root, hr⟩,
+    h.all_alive, h.all_pending, h.counter⟩, hext⟩
+  intro b bd p hb hp
+  obtain ⟨hlt, pd, hpd, hanc⟩ := h.struct.bnd_parent b bd p hb hp
+  exact ⟨hlt, pd, hpd, hanc.ext hext⟩
+
+theorem addResource_bi {m : M} {cur : Nat} {ctx : Option Nat} (n : Nat) (h : BI m) (hv : Valid m cur ctx) :
+    BI (addResource m cur ctx n) ∧ Ext m (addResource m cur ctx n) := by
+  obtain ⟨h1, e1⟩ := addTask_bi 1 h hv.1 (fun b hb => (hv.2 b hb).imp fun _ h => h.1)
+  obtain ⟨h2, e2⟩ := setRes_bi (m.resOwner ++ [(n, cur)]) h1 (by
+    intro k s hm
+    rw [addTask_scopes]
+    rcases List.mem_append.1 hm with hm | hm
+    · exact h.struct.res_owner k s hm
+    · simp at hm; rw [hm.2]; exact hv.1)
+  exact ⟨h2, e1.trans e2⟩
+
+/-- the guard of a read of resource `n`: a task of the scope that owns the resource -/
+theorem addUse_bi {m : M} {cur : Nat} {ctx : Option Nat} (n : Nat) (h : BI m) (hv : Valid m cur ctx) :
+    BI (addTask m (m.ownerOf n) ctx 1) ∧ Ext m (addTask m (m.ownerOf n) ctx 1) :=
+  addTask_bi 1 h (h.struct.ownerOf_lt n) (fun b hb => (hv.2 b hb).imp fun _ h => h.1)
+
+/-! #### tasks spawned in place -/
+
+theorem Local.ext {m m' : M} (hl : Local m) (he : Ext m m')
+    (hnew : ∀ (t : Nat) (tk : Task) (b : Nat), m'.tasks[t]? = some tk → tk.boundary = some b →
+      m.tasks[t]? = some tk ∨ ∃ bd, m.boundaries[b]? = some bd ∧ Anc m bd.innerScope tk.scope) : Local m' := by
+  intro t tk b ht hb
+  have : ∃ bd, m.boundaries[b]? = some bd ∧ Anc m bd.innerScope tk.scope := by
+    rcases hnew t tk b ht hb with h | h
+    · exact hl t tk b h hb
+    · exact h
+  obtain ⟨bd, hbd, hanc⟩ := this
+  obtain ⟨bd', hbd', e⟩ := he.bnd b bd hbd
+  exact ⟨bd', hbd', by rw [e]; exact hanc.ext he⟩
+
+theorem addTask_local {m : M} {cur : Nat} {ctx : Option Nat} (n : Nat) (hl : Local m) (hv : Valid m cur ctx)
+    (he : Ext m (addTask m cur ctx n)) : Local (addTask m cur ctx n) := by
+  refine hl.ext he fun t tk b ht hb => ?_
+  rw [addTask_tasks, List.getElem?_append] at ht
+  split at ht
+  · exact .inl ht
+  · cases hk : t - m.tasks.length with
+    | zero => simp [hk] at ht; subst ht; exact .inr (hv.2 b hb)
+    | succ k => simp [hk] at ht
+
 /-! #### induction over the build description -/
 
 theorem buildItem_scope (m cur ctx cs) :
@@ -1032,6 +1138,11 @@ theorem buildItem_boundary (m cur ctx cs) :
   simp [buildItem, addBoundary]
 theorem buildItem_task (m cur ctx n) : buildItem m cur ctx (.task n) = addTask m cur ctx n := by
   cases ctx <;> simp only [buildItem, addTask]
+theorem buildItem_resource (m cur ctx n) : buildItem m cur ctx (.resource n) = addResource m cur ctx n := by
+  cases ctx <;> simp only [buildItem, addTask, addResource]
+/-- the guard of a read is a task of the scope that owns the resource -/
+theorem buildItem_use (m cur ctx n) : buildItem m cur ctx (.use n) = addTask m (m.ownerOf n) ctx 1 := by
+  cases ctx <;> simp only [buildItem, addTask, M.ownerOf]
 
 mutual
 theorem buildItem_bi : ∀ (it : Item) (m : M) (cur : Nat) (ctx : Option Nat), BI m → Valid m cur ctx →
@@ -1048,7 +1159,13 @@ theorem buildItem_bi : ∀ (it : Item) (m : M) (cur : Nat) (ctx : Option Nat), B
     exact ⟨h2, e1.trans e2⟩
   | .task n, m, cur, ctx, h, hv => by
     rw [buildItem_task]
-    exact addTask_bi n h hv
+    exact addTask_bi n h hv.1 (fun b hb => (hv.2 b hb).imp fun _ h => h.1)
+  | .resource n, m, cur, ctx, h, hv => by
+    rw [buildItem_resource]
+    exact addResource_bi n h hv
+  | .use n, m, cur, ctx, h, hv => by
+    rw [buildItem_use]
+    exact addUse_bi n h hv
 theorem buildItems_bi : ∀ (is : List Item) (m : M) (cur : Nat) (ctx : Option Nat), BI m → Valid m cur ctx →
     BI (buildItems m cur ctx is) ∧ Ext m (buildItems m cur ctx is)
   | [], m, cur, ctx, h, hv => by
@@ -1062,7 +1179,7 @@ end
 
 theorem bi_init : BI M.init where
   struct := by
-    refine ⟨?_, ?_, ?_, ?_, ?_⟩
+    refine ⟨?_, ?_, ?_, ?_, ?_, ?_, ?_⟩
     · intro s p hp
       unfold parentOf M.init at hp
       cases s <;> simp at hp
@@ -1084,6 +1201,55 @@ theorem BI.good {m : M} (h : BI m) : Good m where
 
 theorem good_build (items : List Item) : Good (buildItems M.init 0 none items) :=
   (buildItems_bi items _ _ _ bi_init valid_init).1.good
+
+/-! #### build descriptions without reads: every task is spawned in place -/
+
+mutual
+/-- the description contains no read (`Item.use`) -/
+def Item.noUse : Item → Bool
+  | .scope cs => Items.noUse cs
+  | .boundary cs => Items.noUse cs
+  | .task _ => true
+  | .resource _ => true
+  | .use _ => false
+def Items.noUse : List Item → Bool
+  | [] => true
+  | i :: is => i.noUse && Items.noUse is
+end
+
+mutual
+theorem buildItem_local : ∀ (it : Item) (m : M) (cur : Nat) (ctx : Option Nat), it.noUse = true → BI m →
+    Valid m cur ctx → Local m → Local (buildItem m cur ctx it)
+  | .scope cs, m, cur, ctx, hn, h, hv, hl => by
+    rw [buildItem_scope]
+    obtain ⟨h1, e1, v1⟩ := addScope_bi h hv
+    exact buildItems_local cs _ _ _ (by simpa [Item.noUse] using hn) h1 v1 (hl.ext e1 fun _ _ _ ht _ => .inl ht)
+  | .boundary cs, m, cur, ctx, hn, h, hv, hl => by
+    rw [buildItem_boundary]
+    obtain ⟨h1, e1, v1⟩ := addBoundary_bi h hv
+    exact buildItems_local cs _ _ _ (by simpa [Item.noUse] using hn) h1 v1 (hl.ext e1 fun _ _ _ ht _ => .inl ht)
+  | .task n, m, cur, ctx, _, h, hv, hl => by
+    rw [buildItem_task]
+    exact addTask_local n hl hv (addTask_bi n h hv.1 (fun b hb => (hv.2 b hb).imp fun _ h => h.1)).2
+  | .resource n, m, cur, ctx, _, h, hv, hl => by
+    rw [buildItem_resource]
+    have e1 := (addTask_bi 1 h hv.1 (fun b hb => (hv.2 b hb).imp fun _ h => h.1)).2
+    exact (addTask_local 1 hl hv e1).ext ⟨fun _ _ h => h, Nat.le_refl _, fun _ bd h => ⟨bd, h, rfl⟩⟩
+      fun _ _ _ ht _ => .inl ht
+  | .use n, m, cur, ctx, hn, _, _, _ => by simp [Item.noUse] at hn
+theorem buildItems_local : ∀ (is : List Item) (m : M) (cur : Nat) (ctx : Option Nat), Items.noUse is = true → BI m →
+    Valid m cur ctx → Local m → Local (buildItems m cur ctx is)
+  | [], m, cur, ctx, _, _, _, hl => by
+    simp only [buildItems]; exact hl
+  | i :: is, m, cur, ctx, hn, h, hv, hl => by
+    simp only [buildItems]
+    have hn' : i.noUse = true ∧ Items.noUse is = true := by simpa [Items.noUse] using hn
+    obtain ⟨h1, e1⟩ := buildItem_bi i m cur ctx h hv
+    exact buildItems_local is _ cur ctx hn'.2 h1 (hv.ext e1) (buildItem_local i m cur ctx hn'.1 h hv hl)
+end
+
+theorem local_build (items : List Item) (hn : Items.noUse items = true) : Local (buildItems M.init 0 none items) :=
+  buildItems_local items _ _ _ hn bi_init valid_init (fun t tk b ht _ => by simp [M.init] at ht)
 
 
 /-! ### 9. reachable states, runs -/
